@@ -477,4 +477,10 @@ class Code311(Code310):
         return parse_linetable(self.co_linetable, self.co_firstlineno)
 
     def co_positions(self):
-        return parse_location_entries(self.co_linetable, self.co_firstlineno)
+        """Like types.CodeType.co_positions(): one
+        (lineno, end_lineno, col_offset, end_col_offset) tuple per code unit."""
+        for length, start_line, end_line, start_col, end_col in parse_location_entries(
+            self.co_linetable, self.co_firstlineno
+        ):
+            for _ in range(length):
+                yield (start_line, end_line, start_col, end_col)
